@@ -22,7 +22,7 @@ func init() {
 		ID:    "C14",
 		Title: "Decoded packets own their memory and packets do not interfere",
 		Level: "model_checking",
-		Rule: "explicit enumeration of operation histories over a pool of up to three real packets and one reusable read buffer: decode frame f (one rich frame per type, 16 incl. type 0) through ReadPacket from the buffer, or through UnmarshalBinary(buf[hdr:n]) on the type's zero value or on a value made by the type's constructor; scribble (overwrite the buffer with ff); encode packet i; String+Dump packet i; call one of four setters/adders on packet i. " +
+		Rule: "explicit enumeration of operation histories over a pool of up to three real packets and one reusable read buffer: decode frame f (one rich frame per type, 16 incl. type 0) through ReadPacket from the buffer, or through UnmarshalBinary(buf[hdr:n]) on the type's zero value or on a value made by the type's constructor, or into packet #0 of the pool when it has the frame's type (a packet reused as decode destination); scribble (overwrite the buffer with ff); encode packet i; String+Dump packet i; call one of four setters/adders on packet i. " +
 			"All sequences of length <=3 (quick) / <=4 (thorough). Invariants in the state reached by every sequence: (1) the full observation (accessors, String, re-encoding) of every packet not targeted by the last operation equals the snapshot taken when it was last targeted; (2) a freshly decoded packet equals the reference decode of the same frame in a pristine process (history independence); (3) whenever the deep digest of the package-level variables differs from its initial value, packets freshly built with the constructors must still encode and render exactly as in a pristine process; (4) alias analysis of the concrete object graphs: no mutable memory region shared between two pool packets or between a packet and the caller's buffer. " +
 			"states = sequences executed (each replayed on fresh objects), transitions = operations executed; distinct_nontrivial = distinct sequences containing at least one decode followed by another operation.",
 		Assumptions: []string{
@@ -84,6 +84,16 @@ func c14Frames() *poolFrames {
 	for t := byte(1); t <= 15; t++ {
 		add(mustEncode(richPacket(t, true), spec.Form{}))
 	}
+	// a CONNECT whose protocol name is shorter than the default one and a
+	// PUBLISH with other contents: decoding them into used packets must not
+	// write through storage shared with anything else
+	alt := richPacket(1, true)
+	alt.ProtoName, alt.ProtoVer = []byte("MQx"), 4
+	alt.ClientID = []byte("zz")
+	add(mustEncode(alt, spec.Form{}))
+	altp := minimalPacket(3)
+	altp.Topic, altp.Payload = []byte("q"), []byte("Z")
+	add(mustEncode(altp, spec.Form{}))
 	pf.probe = c14Probe()
 	for i, f := range pf.frames {
 		p, err, res := readPacket(bytes.NewReader(f), stepBudget(len(f)))
@@ -130,6 +140,11 @@ func c14Alphabet(pf *poolFrames) []poolOp {
 	for f := range pf.frames {
 		if pf.types[f] != 0 {
 			ops = append(ops, poolOp{Name: fmt.Sprintf("unmarshalNew(%s)", bind.TypeNames[pf.types[f]]), Kind: 'n', Frame: f})
+		}
+	}
+	for f := range pf.frames {
+		if pf.types[f] == 1 || pf.types[f] == 3 || pf.types[f] == 9 {
+			ops = append(ops, poolOp{Name: fmt.Sprintf("unmarshalInto(#0,frame%d:%s)", f, bind.TypeNames[pf.types[f]]), Kind: 'i', Frame: f, Slot: 0})
 		}
 	}
 	ops = append(ops, poolOp{Name: "scribble", Kind: 's'})
@@ -199,6 +214,20 @@ func c14Run(pf *poolFrames, ops []poolOp, seq []int, globals0 digest.Sum) (f *co
 			if last && o.Kind == 'r' && obs != pf.ref[o.Frame] {
 				return mk("history-dependent-decode/"+bind.TypeNames[pf.types[o.Frame]], fmt.Sprintf("decoded packet %q differs from the pristine decode %q", clip(obs, 150), clip(pf.ref[o.Frame], 150))), true
 			}
+		case 'i':
+			if o.Slot >= len(pool) || bind.TypeOf(pool[o.Slot]) != pf.types[o.Frame] || pf.types[o.Frame] == 0 {
+				return nil, false
+			}
+			fr := pf.frames[o.Frame]
+			n := copy(buf, fr)
+			p := pool[o.Slot]
+			var err error
+			res := guarded(stepBudget(n), func() { err = p.UnmarshalBinary(buf[pf.hdr[o.Frame]:n]) })
+			if res.Panic != "" || res.Budget || err != nil {
+				return mk("decode-into-used-packet-fails/"+bind.TypeNames[pf.types[o.Frame]], fmt.Sprintf("%v %s", err, res.Panic)), true
+			}
+			target = o.Slot
+			snap[o.Slot] = c14Obs(p)
 		case 's':
 			for i := range buf {
 				buf[i] = 0xff
